@@ -417,6 +417,7 @@ static void do_proof(World &W, const ProofSpec &ps_in, const Fault &f, bool chun
 	std::ostringstream id; id << kind_name(ps.kind) << "/v" << ps.variant << " prover=" << ps.prover << " verifier=" << ps.verifier;
 	if (ps.kind >= K_CUT) id << " n=" << st.sin.size() << (st.cyclic ? " cyclic" : "");
 	W.res.cnt[std::string("probe.proof_") + kind_name(ps.kind) + "_v" + std::to_string(ps.variant)]++;
+	if (ps.kind >= K_CUT && st.sin.size() > 256) W.res.cnt["probe.proof_on_stack_above_256_cards"]++;
 	Rng snapP = W.S.party[ps.prover], snapV = W.S.party[ps.verifier];
 
 	if (ps.kind >= K_CUT && ps.kind != K_GROTH)
@@ -679,6 +680,20 @@ static Plan cards_generate(uint64_t seed, const Tier &tier)
 	p.cfg["nmax"] = g.chance(1, 6) ? (int64_t)g.range(9, 20) : (int64_t)g.range(2, 8);
 	int nops = (int)g.range(3, tier.thorough ? 14 : 9);
 	bool faults = tier.opt.count("nofaults") == 0;
+	if (g.chance(1, tier.thorough ? 60 : 150) && (p.property == "C03" || p.property == "C02" || p.property == "C12"))
+	{
+		// a rare big-stack case: the commitment scheme uses precomputed tables for the first 256
+		// generators only, so stacks around and above that size take another code path
+		static const int big[] = { 255, 256, 257, 258, 300 };
+		p.cfg["big"] = 1; p.cfg["nmax"] = 300; p.cfg["k"] = 2; p.cfg["w"] = (int64_t)g.range(1, 3); p.cfg["group"] = 0; p.cfg["ell"] = 1;
+		p.ops.push_back(Op("stack", big[g.below(5)], (int64_t)g.below(1 << 20)));
+		p.ops.push_back(Op("mix", (int64_t)g.below(2), 0, 0, 0));
+		Op op("prove"); op.a.push_back(K_GROTH); op.a.push_back((int64_t)g.below(3)); op.a.push_back(0); op.a.push_back(1); op.a.push_back(0);
+		op.a.push_back(0); op.a.push_back(0); op.a.push_back(0); op.a.push_back(0);
+		p.ops.push_back(op);
+		p.ops.push_back(Op("openstack", (int64_t)g.below(2), 0));
+		return p;
+	}
 	int64_t k = p.cfg["k"];
 	// a short set-up phase so that every proof kind has something to talk about
 	for (int i = (int)g.range(1, 2); i > 0; i--) p.ops.push_back(Op("card", (int64_t)g.below(128)));
@@ -740,7 +755,7 @@ static RunResult cards_execute(const Plan &plan)
 	W.kappa = (size_t)std::max<int64_t>(0, std::min<int64_t>(TMCG_MAX_ZNP_ITERATIONS, plan.get("kappa", 4)));
 	W.maxtype = (size_t)1 << W.w;
 	W.tap = plan.get("tap", 1) != 0;
-	W.nmax = (size_t)std::max<int64_t>(2, std::min<int64_t>(32, plan.get("nmax", 8)));
+	W.nmax = (size_t)std::max<int64_t>(2, std::min<int64_t>(plan.get("big", 0) ? 320 : 32, plan.get("nmax", 8)));
 	static const unsigned long ells160[] = { 16, 32, 48 }, ells200[] = { 24, 48, 64 };
 	W.ell_e = (W.G->ss >= 200 ? ells200 : ells160)[(size_t)plan.get("ell", 0) % 3];
 	bool chunked = plan.get("chunked", 0) != 0;
@@ -864,7 +879,7 @@ static RunResult cards_execute(const Plan &plan)
 		}
 		else if (op.kind == "stack")
 		{
-			StackRec s; size_t n = (size_t)std::max<int64_t>(1, std::min<int64_t>(24, op.arg(0)));
+			StackRec s; size_t n = (size_t)std::max<int64_t>(1, std::min<int64_t>(plan.get("big", 0) ? 320 : 24, op.arg(0)));
 			uint64_t bits = (uint64_t)op.arg(1);
 			W.S.single_party = 0;
 			for (size_t i = 0; i < n; i++)
